@@ -5,6 +5,9 @@ open StarsimModel.C08
 #print axioms C08_table_finish_last
 #print axioms C08_table_has_finish
 #print axioms C08_eps_matches_rounding
+#print axioms C08_modules_chain_is_model
+#print axioms C08_clock_writes
+#print axioms C08_people_follow_sim
 #print axioms C08_collect_wellformed
 #print axioms C08_makePlan_isPlan
 #print axioms C08_makePlanI_isPlan
